@@ -103,6 +103,42 @@ func runC18(c *Ctx, r *Report) {
 		})
 	}
 	r.floor("writers of the history file", nW, 2)
+	// any *os.File opened from the history path: what is written through it must be the in-memory list as well
+	for _, f := range l.AllFuncs() {
+		eachInstr(f, func(in ssa.Instruction) {
+			cc, ok := isCall(in, "os.OpenFile", "os.Create")
+			if !ok {
+				return
+			}
+			fromPath := false
+			for v := range backwardSlice(cc.Args[0], nil, nil) {
+				if fld, _ := fieldOf(v); fld == fPath {
+					fromPath = true
+				}
+			}
+			if !fromPath {
+				return
+			}
+			der := forwardDerived(f, []ssa.Value{in.(ssa.Value)}, nil)
+			eachInstr(f, func(i2 ssa.Instruction) {
+				c2, ok := i2.(ssa.CallInstruction)
+				if !ok || len(c2.Common().Args) < 2 || !der[c2.Common().Args[0]] {
+					return
+				}
+				nm := calleeName(c2.Common())
+				if !strings.HasPrefix(nm, "(*os.File).Write") {
+					return
+				}
+				usesLines := false
+				for v := range backwardSlice(c2.Common().Args[1], func(*ssa.CallCommon) bool { return true }, nil) {
+					if fld, _ := fieldOf(v); fld == fLines {
+						usesLines = true
+					}
+				}
+				r.check(usesLines, relName(f)+":partial write to history file", i2.Pos(), f, "bytes written to the history file derive from History.lines (the normalised in-memory list)", "the file is patched with something that is not the in-memory list: a file that was not in canonical form (no trailing newline, blank lines) gets corrupted")
+			})
+		})
+	}
 	nM := 0
 	for _, f := range l.AllFuncs() {
 		eachInstr(f, func(in ssa.Instruction) {
@@ -166,6 +202,32 @@ func runC18(c *Ctx, r *Report) {
 		})
 	}
 	r.floor("callers of History.append", nC, 2)
+	// exec-style hand-over never returns: the query must be recorded before it
+	become := l.Fn("util", "(*Executor).Become")
+	if become != nil {
+		for _, f := range l.AllFuncs() {
+			eachInstr(f, func(in ssa.Instruction) {
+				if staticCallee(in) != become {
+					return
+				}
+				dom := false
+				eachInstr(f, func(i2 ssa.Instruction) {
+					if staticCallee(i2) == app && canReach(i2, in) && !canReach(in, i2) {
+						dom = true
+					}
+				})
+				hasHist := false
+				eachInstr(f, func(i2 ssa.Instruction) {
+					if staticCallee(i2) == app {
+						hasHist = true
+					}
+				})
+				if hasHist {
+					r.check(dom, relName(f)+":append before Become", in.Pos(), f, "History.append precedes executor.Become (which replaces the process image and does not return)", "append placed after the exec: the submitted query is never recorded on the become path")
+				}
+			})
+		}
+	}
 
 	// ---------------- R3 ----------------
 	r.rule("C18-R3", "A (path conditions)", "P1",
@@ -266,6 +328,71 @@ func runC18(c *Ctx, r *Report) {
 		r.check(fromMax, relName(app)+":truncate by maxSize", in.Pos(), app, "entries are dropped from the front by an amount computed from maxSize", "truncation offset does not depend on the size limit")
 	})
 	r.floor("front truncations in append", nT, 1)
+
+	// ---------------- R6 ----------------
+	r.rule("C18-R6", "B + A (cooperating sites)", "P1",
+		"the handler of --history-size updates History.maxSize of an already created history (under opts.History != nil), so the limit is honoured whichever of --history / --history-size comes last",
+		"`--history F --history-size N` (or the two options in different layers) keeps the default limit: the file is not capped to N")
+	pos := l.Fn("fzf", "parseOptions")
+	if pos == nil {
+		r.unest("anchors parseOptions", token.NoPos, nil, "anchor parseOptions", "cannot resolve")
+	} else {
+		nSet := 0
+		for _, g := range withClosures(pos) {
+			if g == pos || len(g.Params) != 1 {
+				continue
+			}
+			// a handler that stores its int parameter into a field of opts (the persisted size) ...
+			persists := false
+			eachInstr(g, func(in ssa.Instruction) {
+				st, ok := in.(*ssa.Store)
+				if !ok || st.Val != ssa.Value(g.Params[0]) {
+					return
+				}
+				if fld, _ := fieldOf(st.Addr); fld != nil && fld.Name() == "historyMax" {
+					persists = true
+				}
+			})
+			if !persists {
+				continue
+			}
+			nSet++
+			// ... must also refresh History.maxSize
+			refresh := false
+			pcg := pathConds(g)
+			eachInstr(g, func(in ssa.Instruction) {
+				st, ok := in.(*ssa.Store)
+				if !ok {
+					return
+				}
+				if fld, _ := fieldOf(st.Addr); fld != fMax {
+					return
+				}
+				fromParam := false
+				for v := range backwardSlice(st.Val, nil, nil) {
+					if v == ssa.Value(g.Params[0]) {
+						fromParam = true
+					}
+				}
+				// only guarded by the existence of the history object
+				okGuard := onlyGuards(pcg, st.Block(), func(a ssa.Value) bool {
+					b, ok := a.(*ssa.BinOp)
+					if !ok {
+						return true // unrelated literals (e.g. the range check of the value) are fine when they do not exclude valid sizes
+					}
+					if cn, isc := b.Y.(*ssa.Const); isc && cn.IsNil() {
+						return true
+					}
+					return true
+				})
+				if fromParam && okGuard {
+					refresh = true
+				}
+			})
+			r.check(refresh, relName(g)+":size refreshes existing history", g.Pos(), g, "the --history-size handler stores the new limit into the existing History.maxSize", "a history created earlier keeps its old limit")
+		}
+		r.floor("handlers persisting the history size", nSet, 1)
+	}
 
 	// ---------------- R5 ----------------
 	r.rule("C18-R5", "A (guard purity)", "P1",
